@@ -499,7 +499,7 @@ def wl_sweep(ctx, rng):
         seq.append(v)
         if j % 4 == 3:
             seq.append(values[int(rng.integers(0, max(j // 2, 1)))])
-    seq += [values[int(k)] for k in rng.integers(0, n // 3, 10)]
+    seq += [values[int(k)] for k in rng.integers(0, n, 14)]          # (from anywhere in the history)
     judged = 0
     for v in seq:
         model['planet_mass'] = v
